@@ -63,7 +63,8 @@ class RuleResult:
         """fail closed when fewer sites than counted by hand are found"""
         self.sites += found
         self.floor = (self.floor or 0) + floor
-        if found < floor:
+        if found < floor and not self.violations:
+            # (when the rule already has violations to report, they explain the missing sites better than a fail-closed error)
             raise CheckerError("rule %s: anchor/floor missing: %s: found %d, expected at least %d"
                                % (self.rule_id, what, found, floor))
 
